@@ -10,6 +10,8 @@
 (*   kind "hot"  : X (integers), K (0/1), out, outneg (result on the negated raster), as     *)
 (*                 integer matrices; band = borderline half-width in thousandths of z        *)
 (*   kind "ladder": zs (z in thousandths), outs (what _calc_hotspots_numpy returned)         *)
+(* The raster may have been NumPy- or Dask-backed (any chunking): the expected value is the   *)
+(* definition in both cases.                                                                  *)
 EXTENDS FocalOps, TLC, Json, IOUtils
 
 Cases == ndJsonDeserialize(IOEnv.VERIF_CASES)
@@ -86,7 +88,10 @@ LadderV(c) ==
        [] odd # {} -> <<"hotspots_negation", ToString(c.zs[CHOOSE k \in odd : TRUE])>>
        [] OTHER -> <<"ok", "">>
 
-V(c) == CASE c.kind = "apply" -> ApplyV(c)
+\* every case carries lazy: 0 iff the input was Dask-backed and the result was not a lazy Dask array before
+\* it was computed (1 for NumPy inputs); the values of Dask-backed cases are judged by the same clauses
+V(c) == CASE c.lazy = 0 -> <<"result_not_dask_backed_before_compute", "">>
+          [] c.kind = "apply" -> ApplyV(c)
           [] c.kind = "mean" -> MeanV(c)
           [] c.kind = "conv" -> ConvV(c)
           [] c.kind = "hot" -> HotV(c)
